@@ -152,6 +152,10 @@ def site_programs(tier, seed):
         progs.append(Prog('site/use-paren/%d' % i, [Def('M', 'm1'), T('h', ' '), Use('M', [], sep), T('q', '\n')], ['A']))
     # macro whose body is an empty conditional (expansion is the empty string)
     progs.append(Prog('site/use-emptycond', [Def('E', '`ifdef ZZ `endif', body_items=[Cond(False, [('ZZ', [])])]), Use('E', None, '    '), T('abc', '\n')], ['A']))
+    # redefinition (same and different text) between uses: the expansion carries the provenance of the definition in force
+    progs.append(Prog('site/redefine-same', [Def('M', 'm1'), Use('M', None, ' '), T('k', '\n'), Def('M', 'm1'), Use('M', None, ' '), T('q', '\n')], ['A']))
+    progs.append(Prog('site/redefine-other', [Def('M', 'm1'), Use('M', None, ' '), T('k', '\n'), Def('M', 'm22'), Use('M', None, ' '), T('q', '\n')], ['A']))
+    progs.append(Prog('site/define-over-caller', [Def('A', 'va'), Use('A', None, ' '), T('q', '\n')], ['A']))
     progs.append(Prog('site/position', [T('h', ' '), Use('__LINE__', None, ' '), T('m', '\n'), Use('__FILE__', None, ' '), T('q', '\n')], ['A']))
     # comments
     progs.append(Prog('site/comments', [T('a', ' '), Com('// c1'), T('b', ' '), Com('/* c2 */', ' '), T('c', '\n'), Com('/* m\n l */'), T('d', '\n')], ['A']))
@@ -250,6 +254,20 @@ def include_programs(tier, seed):
     progs.append(IncProg('inc/line/two-includes', [Inc('f.svh', '"', ' '), Inc('f.svh'), T('z', '\n')], ['A'], {'f.svh': F('fc')}, exists={'f.svh': True}))
     progs.append(IncProg('inc/line/multiline-text-before', [T('a', '\n'), T('b', ' '), Inc('f.svh'), T('z', '\n')], ['A'], {'f.svh': F('fc')}, exists={'f.svh': True}))
     progs.append(IncProg('inc/line/text-prev-line', [T('a', '\n'), Inc('f.svh'), T('z', '\n')], ['A'], {'f.svh': F('fc')}, exists={'f.svh': True}))
+    # anything else than white space / a comment after the directive on its line
+    progs.append(IncProg('inc/line/undef-after', [Inc('f.svh', '"', ' '), Undef('A'), T('z', '\n')], ['A'], {'f.svh': F('fc')}, exists={'f.svh': True}))
+    progs.append(IncProg('inc/line/kept-after', [Inc('f.svh', '"', ' '), Kept('`resetall'), T('z', '\n')], ['A'], {'f.svh': F('fc')}, exists={'f.svh': True}))
+    progs.append(IncProg('inc/line/use-after', [Def('M', 'm1'), Inc('f.svh', '<', ' '), Use('M', None, '\n'), T('z', '\n')], ['A'], {'f.svh': F('fc')}, exists={'f.svh': True}))
+    progs.append(IncProg('inc/line/ifdef-after', [Inc('f.svh', '"', ' '), Cond(False, [('A', [T('a', '\n')])], None), T('z', '\n')], ['A'], {'f.svh': F('fc')}, exists={'f.svh': True}))
+    progs.append(IncProg('inc/line/define-after', [Inc('f.svh', '"', ' '), Def('Q', 'q1'), T('z', '\n')], ['A'], {'f.svh': F('fc')}, exists={'f.svh': True}))
+    progs.append(IncProg('inc/line/undef-before', [Undef('A'), Inc('f.svh'), T('z', '\n')], ['A'], {'f.svh': F('fc')}, exists={'f.svh': True}))
+    # deeper graphs: depth 3, fan-out 2, comments in every file (strip_comments is symbolic in C10)
+    progs.append(IncProg('inc/deep3', [Com('// top'), Inc('a.svh'), T('z', '\n')], ['A'],
+                         {'a.svh': [Com('/* a */'), T('a0', '\n'), Inc('b.svh'), Inc('c.svh', '<'), T('a1', '\n')],
+                          'b.svh': [Com('// b'), Def('FROM_B', 'fb'), Inc('d.svh'), T('b0', '\n')],
+                          'c.svh': [Use('FROM_B', None, '\n'), T('c0', '\n')],
+                          'd.svh': [Com('/* d */'), T('d0', '\n')]},
+                         exists={'a.svh': True, 'b.svh': True, 'c.svh': True, 'd.svh': 'sym'}))
     # ignore_include symbolic
     progs.append(IncProg('inc/ignore', [T('a', '\n'), Inc('f.svh'), T('z', '\n')], ['A'], {'f.svh': F('fc')}, ignore='sym'))
     progs.append(IncProg('inc/ignore-nested', [T('a', '\n'), Cond(False, [('A', [Inc('f.svh')])], [Inc('g.svh', '<')]), T('z', '\n')], ['A'],
@@ -292,6 +310,8 @@ def depth_programs(tier, seed):
     progs.append(DepthProg('depth/inc-in-macro', [Def('INC', '`include "f.svh"', body_items=[Inc('f.svh')]), Use('INC', None, '\n')],
                            {'f.svh': [T('f0', '\n')]}, rd=S, idp=S))
     # cycles (concrete start depths)
+    for p_ in progs:
+        p_.strip = 'sym'
     progs.append(DepthProg('cycle/macro-direct', [Def('M', '`M', body_items=[Use('M', None, '')]), Use('M', None, '\n')]))
     progs.append(DepthProg('cycle/macro-mutual', [Def('M', '`N', body_items=[Use('N', None, '')]), Def('N', '`M', body_items=[Use('M', None, '')]), Use('M', None, '\n')]))
     progs.append(DepthProg('cycle/macro-3', [Def('M', '`N', body_items=[Use('N', None, '')]), Def('N', '`O', body_items=[Use('O', None, '')]),
